@@ -547,3 +547,9 @@ Lemma cds_views_example :
   -5937294070513664 = -86399 * 2 ^ 36 /\
   cds_datetime_us {| cdays := 4382; cms := 1000 |} = -86399000000.
 Proof. vm_compute. repeat split; reflexivity. Qed.
+
+(* ms_of_today adds the fractional second (in seconds) to a millisecond count: half a
+   millisecond before midnight it returns 86400000, which is not a millisecond of a day *)
+Lemma cds_ms_of_today_range_refuted :
+  exists s, fl_normal s /\ 0 < fm s /\ cds_ms_of_today s = 86400000.
+Proof. exists (rne 863999995 10000). vm_compute. repeat split; congruence. Qed.
